@@ -8,7 +8,9 @@ import (
 	"crypto/x509"
 	"crypto/x509/pkix"
 	"encoding/pem"
+	"errors"
 	"fmt"
+	"io"
 	"math/big"
 	"net"
 	"os"
@@ -224,7 +226,9 @@ func (li *Listener) acceptLoop(ctx context.Context) {
 			}
 			buf := make([]byte, 1)
 			n, err := qs.Read(buf)
-			if err != nil {
+			if err != nil && !(n == 1 && errors.Is(err, io.EOF)) {
+				// (a Read may deliver the marker byte together with end-of-stream when the
+				// dialer closes its side without writing anything else)
 				_ = qc.CloseWithError(500, fmt.Sprintf("Read Error: %s", err.Error()))
 				li.sendResult(ctx, nil, err)
 
